@@ -784,6 +784,8 @@ set_option hygiene false in
 /-- the rounds of the two key-value loops (hypotheses of `strLoop_gen` / `intLoop_bind`) -/
 macro "kv_round" : tactic => `(tactic| (
   intros
+  -- the key comparison may be written either way round
+  (try (have hne' := Ne.symm (by assumption : _ ≠ gdprKey)))
   simp only [Funcs.tth_writeKVInfo_loop1, Funcs.tth_writeKVInfo_loop2, Funcs.tth_writeKVInfo_loop3]
   (try bsimps)
   repeat (tth_call; tth_norm)
